@@ -36,3 +36,13 @@ Theorem C20_define_boundary :
   <> merge_opt (Some (EList [S_ "ctx"])) (merge_opt (Some (Single (S_ "app"))) (Some (EList [S_ "cli"]))).
 Proof. exact define_not_associative. Qed.
 Print Assumptions C20_define_boundary.
+
+(* The boundary of C20_select (open finding K20:cli-select-of-removed-name): the theorem is about the app AS LOADED.
+   An app that removes X in-file has lost the X of the in-file spelling when it is loaded — removals are applied by
+   the loader, per module — while the command-line X is put in front of the loaded list afterwards: *)
+Require Import Laze.model.Load.
+Example C20_select_of_removed_name :
+  process_removes [Hard (S_ "x"); Hard (S_ "-x"); Hard (S_ "y")] = [Hard (S_ "y")] /\
+  m_selects (build_binary (with_selects (module_new (S_ "app") None) (process_removes [Hard (S_ "-x"); Hard (S_ "y")])) (S_ "b0") [Hard (S_ "x")])
+  = [Hard (S_ "x"); Hard (S_ "y"); Hard (ctx_module_name (S_ "b0"))].
+Proof. vm_compute. split; reflexivity. Qed.
